@@ -78,7 +78,12 @@ type Options struct {
 
 var goEnv = []string{"GOFLAGS=-mod=mod", "GOPROXY=off", "GOSUMDB=off", "GOTOOLCHAIN=local"}
 
-func env() []string { return append(os.Environ(), goEnv...) }
+// env is the environment of every subprocess: offline Go settings, and /verif/bin/tools first
+// on PATH (the stand-in protoc lives there: goa's gRPC generator shells out to `protoc`).
+func env() []string {
+	e := append(os.Environ(), goEnv...)
+	return append(e, "PATH="+filepath.Join(core.Root(), "bin", "tools")+string(os.PathListSeparator)+os.Getenv("PATH"))
+}
 
 var (
 	digestOnce sync.Once
@@ -93,7 +98,8 @@ func RepoDigest() string {
 		// relinked on every run instead, so editing an oracle does not invalidate the corpora
 		e2 := filepath.Join(core.Root(), "e2")
 		for _, root := range []string{core.RepoDir(), filepath.Join(e2, "spec"), filepath.Join(e2, "build"), filepath.Join(e2, "stubgen"),
-			filepath.Join(e2, "pipe"), filepath.Join(e2, "vreg"), filepath.Join(e2, "cluestub"), filepath.Join(core.Root(), "cmd", "genworker")} {
+			filepath.Join(e2, "pipe"), filepath.Join(e2, "vreg"), filepath.Join(e2, "cluestub"), filepath.Join(core.Root(), "cmd", "genworker"),
+			filepath.Join(core.Root(), "cmd", "protoc"), filepath.Join(core.Root(), "e5")} {
 			var files []string
 			_ = filepath.WalkDir(root, func(p string, d fs.DirEntry, err error) error {
 				if err != nil {
@@ -160,6 +166,14 @@ func ensureGenworker() (string, error) {
 	out, err, _ := run(core.Root(), 10*time.Minute, "go", "build", "-o", bin, "./cmd/genworker")
 	if err != nil {
 		return "", fmt.Errorf("building genworker: %v\n%s", err, out)
+	}
+	// stand-in protoc (engine E5), when present in this revision of /verif
+	if _, serr := os.Stat(filepath.Join(core.Root(), "cmd", "protoc")); serr == nil {
+		_ = os.MkdirAll(filepath.Join(core.Root(), "bin", "tools"), 0o755)
+		out, err, _ := run(core.Root(), 10*time.Minute, "go", "build", "-o", filepath.Join(core.Root(), "bin", "tools", "protoc"), "./cmd/protoc")
+		if err != nil {
+			return "", fmt.Errorf("building stand-in protoc: %v\n%s", err, out)
+		}
 	}
 	return bin, nil
 }
